@@ -1,3 +1,4 @@
+import VelaVerif.Gen.InPlaceRules
 /-!
 # Model of Vela's live-range extraction (`ethosu/vela/live_range.py`)
 
@@ -6,7 +7,8 @@ Hand transcription of
 * `LiveRange.__init__ / add_tensor / mark_usage / set_buffer_size`      → `LR.new`, `LR.addTensor`, `LR.markUsage`
 * `LiveRangeGraph.get_or_create_range / fuse_ranges`                     → `Graph.getOrCreate`, `Graph.apply (.fuse ..)`
 * `tensor_should_be_ignored`                                             → `shouldIgnore`
-* `_get_ifm_to_fuse` / `merge_elementwise_op_ranges`                     → `ifmToFuse`, `fuseEvents`
+* `_get_ifm_to_fuse` / `merge_elementwise_op_ranges`                     → `ifmToFuseP` (`ifmToFuse` = under the probed rules of
+                                                                           the tree under test, `Gen/InPlaceRules.lean`), `fuseEvents`
 * `extract_live_ranges_from_schedule`                                    → `npuLoop`, `npuEvents`, `extractNpu`
 * `extract_live_ranges_from_cascaded_passes`                             → `cpuLoop`, `cpuEvents`, `extractCpu`
 
@@ -215,8 +217,26 @@ structure FuseInfo where
   ifm2Shape : List Nat
 deriving Repr, Inhabited
 
+/-- The conditions of `_get_ifm_to_fuse` that pending repairs of /repo add.  The switches of the tree under test are
+    probed on the live function by `harness/tables/inplace.py` (`Gen/InPlaceRules.lean`); the model is parametric so that
+    the theorems of `Props/C12InPlace.lean` can say for which rules the decision is safe. -/
+structure FuseRules where
+  /-- Memcpy branch: `or ifm.ifm_write_protected` (/verif_patches/C01-27) -/
+  memcpyWp : Bool
+  /-- elementwise branch: `and not inp.tens.is_variable` (/verif_patches/C12-11) -/
+  elementwiseVar : Bool
+  /-- Memcpy branch: `or ifm.is_variable` (/verif_patches/C12-11) -/
+  memcpyVar : Bool
+deriving Repr, DecidableEq, Inhabited
+
+/-- the rules of the tree under test -/
+def repoRules : FuseRules :=
+  { memcpyWp := Gen.InPlaceRules.memcpyChecksWriteProtection,
+    elementwiseVar := Gen.InPlaceRules.elementwiseChecksVariable,
+    memcpyVar := Gen.InPlaceRules.memcpyChecksVariable }
+
 /-- the conjunction tested for one input of an elementwise operation -/
-def candidateOk (fi : FuseInfo) (shape : List Nat) (t : Tensor) : Bool :=
+def candidateOkP (ru : FuseRules) (fi : FuseInfo) (shape : List Nat) (t : Tensor) : Bool :=
   shape == fi.ofmShape            -- inp.op_shape == outp.op_shape
   && !t.shapeEmpty                -- inp.tens.shape != []
   && !t.writeProtected            -- not inp.tens.ifm_write_protected
@@ -225,25 +245,31 @@ def candidateOk (fi : FuseInfo) (shape : List Nat) (t : Tensor) : Bool :=
   && t.dtype == fi.ofm.dtype      -- inp.tens.dtype == outp.tens.dtype
   && t.consumers == 1             -- len(inp.tens.consumer_list) == 1
   && fi.ofm.producers == 1        -- len(outp.tens.ops) == 1
+  && !(ru.elementwiseVar && t.isVariable)   -- (repair) not inp.tens.is_variable
 
 /-- `inps` of `_get_ifm_to_fuse` -/
 def FuseInfo.inps (fi : FuseInfo) : List (List Nat × Tensor) :=
   (match fi.ifm with | some t => [(fi.ifmShape, t)] | none => []) ++
   (match fi.ifm2 with | some t => [(fi.ifm2Shape, t)] | none => [])
 
-/-- `_get_ifm_to_fuse(sched_op, target_mem_area, target_mem_type_set)`; `none` in the outer option = the
-    Python code raises -/
-def ifmToFuse (fi : FuseInfo) : Option (Option Tensor) :=
+/-- `_get_ifm_to_fuse(sched_op, target_mem_area, target_mem_type_set)` under the rules `ru`; `none` in the outer
+    option = the Python code raises -/
+def ifmToFuseP (ru : FuseRules) (fi : FuseInfo) : Option (Option Tensor) :=
   if fi.elementwise && !fi.varWrite then
     if !shouldIgnore fi.ofm then
-      some ((fi.inps.find? (fun p => candidateOk fi p.1 p.2)).map (·.2))
+      some ((fi.inps.find? (fun p => candidateOkP ru fi p.1 p.2)).map (·.2))
     else some none
   else if fi.memcpy then
     match fi.ifm with
     | none => none
     | some ifm =>
-      if !(shouldIgnore ifm || shouldIgnore fi.ofm || ifm.consumers > 1) then some (some ifm) else some none
+      if !(shouldIgnore ifm || shouldIgnore fi.ofm || ifm.consumers > 1
+           || (ru.memcpyWp && ifm.writeProtected) || (ru.memcpyVar && ifm.isVariable)) then some (some ifm)
+      else some none
   else some none
+
+/-- the decision of the tree under test -/
+def ifmToFuse (fi : FuseInfo) : Option (Option Tensor) := ifmToFuseP repoRules fi
 
 /-- `merge_elementwise_op_ranges` -/
 def fuseEvents (fi : FuseInfo) : List Ev :=
